@@ -228,6 +228,10 @@ def instances(tier, seed):
     yield 'h_roundtrip', dict(shape=[[1, 2], [], []], opts=OPTIONS[0], twins=[[1, 2]])
     yield 'h_roundtrip', dict(shape=[[1, 2], [], []], opts=OPTIONS[5], twins=[[1, 2]])
     yield 'h_roundtrip', dict(shape=[[1, 2], [3], [4], [], []], opts=OPTIONS[3], twins=[[3, 4], [1, 2]])
+    for o in (OPTIONS[0], OPTIONS[5]):
+        yield 'h_roundtrip', dict(shape=[[1, 2], [], [3], []], opts=o, twins=[[1, 3]])     # root -> [X1, P], P -> [X2]
+        yield 'h_roundtrip', dict(shape=[[1, 2], [3], [], []], opts=o, twins=[[2, 3]])     # root -> [P, X1], P -> [X2]
+        yield 'h_roundtrip', dict(shape=[[1, 2, 3], [], [4], [4], []], opts=o, twins=[[1, 4]])
     # entry points x input encodings
     for entry in ('cell', 'slice', 'builder'):
         for form in ('bytes', 'hex', 'base64'):
